@@ -9,7 +9,8 @@ git -C /repo worktree add -q "$WT" HEAD || exit 2
 ( cd "$WT" && PYTHONPATH="$WT" /venv/bin/python "$M/demo.py" >/tmp/demo_clean_$$.log 2>&1 ); c=$?
 ( cd "$WT" && git apply "$M/patch.diff" ) || { echo "patch does not apply"; git -C /repo worktree remove --force "$WT"; exit 2; }
 ( cd "$WT" && PYTHONPATH="$WT" /venv/bin/python "$M/demo.py" >/tmp/demo_mut_$$.log 2>&1 ); m=$?
-( cd /verif && VERIF_REPO="$WT" ./check "$P" --tier "$TIER" > /tmp/check_mut_$$.log 2>&1 ); k=$?
+( cd /verif && VERIF_OUT=/tmp/mut/evalout_$$ VERIF_REPO="$WT" ./check "$P" --tier "$TIER" > /tmp/check_mut_$$.log 2>&1 ); k=$?
+rm -rf /tmp/mut/evalout_$$
 git -C /repo worktree remove --force "$WT"
 echo "demo_clean_exit=$c demo_mutant_exit=$m check_exit=$k"
 grep -m4 "sub-check\|INCONCL" /tmp/check_mut_$$.log
